@@ -20,9 +20,9 @@ CLAIMED = {
          "Bounds per obligation are in the evidence (content lengths <= 3, collections <= 2, nesting <= 2); Hash* and third-party carriers are outside. Trusts Kani/CBMC/CaDiCaL, the harness-side reference encoder, and for vint the mir2smt translator (validated per run against native execution).",
          K + " + " + S),
  "C02": ("DESIGN.md §5 C02",
-         "Kernel only: one StreamIdSet::allocate / free step from symbolic bitmaps (512 blocks) is decided by CBMC: lowest free id handed out, never an id in use, exactly one bit changes, None iff exhausted.",
-         "Only the id-reservation arithmetic is decided. The delivery clause (response reaches exactly its request) and every schedule quantifier live in ResponseHandlerMap/router tasks (HashMap + tokio) and are NOT decided. Allocation is checked for the first non-full block at concrete indices {0,511} quick / {0,1,255,256,510,511} thorough with symbolic contents.",
-         K),
+         "Two composable layers. (K) one StreamIdSet::allocate / free step from symbolic bitmaps (512 blocks) by CBMC: lowest free id handed out, never an id in use, exactly one bit changes, None iff exhausted. (S) the connection's response-handler table ResponseHandlerMap, inductively: one allocate / lookup / orphan step (MIR) from EVERY table satisfying the representation invariant, hash maps as total z3 arrays over all 65536 stream slots and 2^64 request ids: allocate never hands out an id whose bit is set (ids of orphaned, still unanswered requests included), registers exactly the given handler and touches nothing else; lookup(s) returns exactly the handler registered under s (or Orphaned / Missing) and only then releases the id; orphan(r) moves r's stream to the orphanage WITHOUT releasing the id; each step re-establishes the invariant, so the clauses hold for histories of any length.",
+         "Layer S uses StreamIdSet through the contract layer K decides (compositional). The tasks that call these steps (router / writer / orphaner: tokio channels, write coalescing, cancellation points) and whether they call them at the right moments are NOT decided; request ids are assumed unique (atomic counter). K: allocation checked for the first non-full block at concrete indices {0,511} quick / {0,1,255,256,510,511} thorough with symbolic contents.",
+         K + " + " + S),
  "C03": ("DESIGN.md §5 C03",
          "The Murmur3 partitioner hasher is decided against an independent bit-vector definition of Cassandra's MurmurHash3_x64_128 (signed-byte tail, Long.MIN_VALUE -> Long.MAX_VALUE): block mix and fmix for all inputs; finish() from an arbitrary hasher state for every tail length 0..15; token of every byte string of the listed lengths; every 2-way (and a grid of 3-way) chunking reaches the same hasher state; CDC partitioner = first 8 bytes big-endian, short keys give the invalid token. Composite keys: deser_prepared_metadata keeps (marker index, pk position) pairs together and sorts them by marker for ALL distinct marker indices (k <= 3 quick, 4 thorough); PartitionKey::new + write_encoded_partition_key hand the hasher the single column's bytes, or len_be16|bytes|0 per component in partition-key order, for EVERY injective placement of k key columns on m bind markers (k<=3 of m<=4 quick; k<=5 of m<=6 thorough) with non-key markers (value / null / unset) interleaved and all component bytes symbolic; calculate_token (Murmur3 and CDC) of such keys equals the specification's token.",
          "Lengths: quick {0,1,7,8,9,15,16,17,31,32,33}, thorough 0..48 and 63..65, 70. Key shapes beyond 5 components / 6 markers, component length profiles other than the listed ones, null key components and the choice of partitioner from table metadata are outside. Iterator adaptors (map is lazy, closures run from their MIR), Vec/SmallVec, sort_unstable_by_key (= any key-ordered permutation) and byteorder reads are library models. Trusted: mir2smt translator + library models.",
@@ -52,8 +52,8 @@ CLAIMED = {
          "Vec/slice operations are modelled as sequence operations (partition_point on partitioned slices, drain, insert, get). TabletsInfo (hash map per table), perform_maintenance, per-DC restriction and RawTablet::from_custom_payload validation are NOT decided.",
          S + " (+ one Kani cross-check on the empty list)"),
  "C16": ("DESIGN.md §5 C16",
-         "Derived SerializeValue, by-name flavour, 3-field structs (plain, #[allow_missing] on the first / second field, forbid_excess_udt_fields): the code generated by the derive macro (MIR of the harness crate, regenerated from /repo/scylla-macros on every run) is symbolically executed for 25 database-side field lists - all 6 permutations, every single missing field, an unknown field at every position - with all field values symbolic: values land in the database's positions, unknown fields become null cells unless trailing (or an error when forbidden), a missing field is an error unless it is allow_missing.",
-         "Only SerializeValue/by-name is decided. NOT decided: DeserializeValue, SerializeRow/DeserializeRow, enforce_order flavour, rename/skip/flatten/default_when_null, >3 fields, non-i32 fields. (Kani on the same generated code did not finish in 25 min.)",
+         "The code GENERATED by the derive macros (MIR of the harness crate, regenerated from /repo/scylla-macros on every run) is symbolically executed for a family of 3-field structs with all field values symbolic. SerializeValue: by-name plain / allow_missing on 1st / 2nd field / forbid_excess_udt_fields / rename / skip, and enforce_order plain / forbid_excess / skip_name_checks, x 25-30 database-side field lists (all 6 permutations, every single missing field, unknown fields at every position): values land in the database's positions, unknown fields become null cells unless trailing (or an error when forbidden), a missing field is an error unless allow_missing, the ordered flavour accepts exactly the declared order (prefix rule for excess fields). DeserializeValue (type_check + deserialize, with the driver contract that deserialize runs only on type-checked types): by-name plain / allow_missing / default_when_null + Option / forbid_excess / rename + skip, and enforce_order plain / forbid_excess / skip_name_checks / allow_missing + default_when_null, x 16-21 field lists x null and absent-from-bytes patterns: every field is filled from the like-named (ordered: same-position, name-checked) UDT field, excess fields ignored unless forbidden, missing fields are type-check errors unless allow_missing, null is an error for i32 unless default_when_null and None for Option, and the generated code never panics on type-checked input.",
+         "Structs of 3 fields of type i32 / Option<i32>; flatten, lifetimes/borrowed fields, > 3 fields and the row derives (SerializeRow / DeserializeRow) are NOT decided. For DeserializeValue the runtime API under the generated code (UdtIterator, leaf deserializers) is an abstract model; closures of one derive expansion share a source span, so their MIR bodies are identified by creation-site order (checked against the closure count). (Kani on the same generated code did not finish in 25 min.)",
          S),
  "C17": ("DESIGN.md §5 C17",
          "Type-check matrix: for each of 19 native carriers (integers, floats, bool, Counter, date/time/timestamp, uuid/timeuuid, inet, String, blob, varint, decimal, duration) the column type ranges symbolically over all 20 native CQL types: serialization succeeds and type_check passes iff the documented mapping allows the pair, and a refused value writes no byte; container carriers (Vec, BTreeSet, BTreeMap, tuple - empty ones included) are refused by every native column. Rollback: after a failing add_value (top-level mismatch; thorough: nested tuple failure after a partial write) SerializedValues is byte-for-byte and count-for-count unchanged, the count equals the number of encoded cells, and the object stays usable.",
@@ -101,7 +101,7 @@ def manifest():
         "engines": [
             {"name": "K", "path": "/verif/kani + /verif/vlib/kanirun.py", "serves_properties": sorted(CLAIMED),
              "kind_free_text": "Kani 0.68 proof harnesses (CBMC 6.11 + CaDiCaL) over the real crates via path dependencies; recompiled from /repo on every run"},
-            {"name": "S", "path": "/verif/mir2smt", "serves_properties": [p for p in sorted(CLAIMED) if p in ("C01", "C03", "C06", "C09", "C11", "C15", "C16", "C20")],
+            {"name": "S", "path": "/verif/mir2smt", "serves_properties": [p for p in sorted(CLAIMED) if p in ("C01", "C02", "C03", "C06", "C09", "C11", "C15", "C16", "C20")],
              "kind_free_text": "MIR (nightly -Zunpretty=mir of the real crate) -> SMT-LIB2 translator; z3 4.8 / z3 5.1 / cvc5 portfolio"},
         ],
         "checks": checks,
@@ -109,4 +109,4 @@ def manifest():
         "notes": "Technique family: solver-based checking of the real code. exit 0 = all obligations discharged within stated bounds; exit 1 = reproducing counterexample; exit 2 = inconclusive (never reported as pass).",
     }
 
-HOOK_COMMITS = ['1dd854c', 'c81cb68', '3bca3b6', '3ff90ff', 'ace7ba7', '423595e', '1865a12', '55a0502', '6db07cc', '8989f50']
+HOOK_COMMITS = ['1dd854c', 'c81cb68', '3bca3b6', '3ff90ff', 'ace7ba7', '423595e', '1865a12', '55a0502', '6db07cc', '8989f50', 'b07dfd2']
